@@ -6,6 +6,7 @@
 #![allow(dead_code)]
 mod appmode;
 mod codec;
+mod extract;
 mod common;
 mod linkmode;
 mod mst;
